@@ -1,142 +1,193 @@
 /-
-C18 — the synchronisation skeletons the models in `Model/C18.lean` were written against
-(the repaired code: per-service recovery in `shutdownService`, re-check of `done` in the
-timer case of `refreshInALoop`).  `Theorems/C18.lean` proves `Gen.SyncSkel.X = Expected.X`
-for each of them by `decide`, so any edit of `/repo` that changes the order or nesting of
-select / case / receive / close / go / defer / return / loop / branch or of the calls to
-Shutdown / Refresh / Handle / UntilNext / After in these functions breaks an obligation.
+C18 — the event graphs (synchronisation skeletons in normal form, `Go/Skel.lean`) the models
+in `Model/C18.lean` and `Model/C18Fine.lean` were written against (the repaired code:
+per-service recovery in `shutdownService`, re-check of `done` in the timer case of
+`refreshInALoop`).  `Theorems/C18.lean` proves `Gen.SyncSkel.X = Expected.X` for each of them
+by `decide`, so any edit of `/repo` that changes the order of select / case / receive / close
+/ go / defer / return / panic / recover or of the calls to Shutdown / Refresh / Handle /
+UntilNext / After / Now / New / cancel / WithTimeout / IsShutdownSignal / RecoverAndLog on
+some control path of these entry points — or the choices offered at some point, or the
+direction of the loop over the services — breaks an obligation; an edit that leaves all of
+that unchanged (helpers extracted or inlined, `continue` vs. `else`, loop rotated, locals
+renamed, logging or error wrapping changed) does not.
+
+The graphs are those of the ENTRY POINTS with every function of package `service` (resp.
+`osutil`) they call inlined: `Handle` contains `shutdown` and `shutdownService`; `Start`
+contains `refreshInALoop` (the body of the goroutine, between `goFunc` and `endFunc`) and
+`refresh`; `Shutdown` contains `refresh`; `IsShutdownSignal` contains `isShutdownSignal`.
+They were regenerated once from the unchanged tree for this normal form and reviewed against
+the source by hand; the pseudo-code in each doc comment is the same graph, printed depth
+first (`Lk:` marks state `k` when it has several predecessors).
 
 How the models read them:
-  * `Handle`: deferred `RecoverAndLog` (a panic leaves `status` at its zero value), a `range`
-    over the signal channel, the `IsShutdownSignal` filter, `return h.shutdown(ctx)`, and a
-    `panic` after the loop that is unreachable while the channel is open.
-  * `shutdown`: `status = ExitCodeSuccess`; loop `i := len-1; i >= 0; i--`; one
-    `shutdownService` per iteration; `continue` when `err == nil`, else `status =
-    ExitCodeFailure`; `return status` — no `break`, no early `return`.
-  * `shutdownService`: deferred closure with `recover()` that turns a panic into `err`.
-  * `refreshInALoop`: `Now, UntilNext` once before the loop; every iteration evaluates
-    `After` and then selects between `w.done` (return) and the timer; the timer case first
-    re-checks `w.done` (`select … default`), then `refresh`, `Handle` iff `err != nil`, then
-    `Now, UntilNext`.
-  * `refresh`: `New`, deferred `cancel`, `Refresh`.
-  * `Shutdown`: `close(w.done)` first; iff `w.refrOnShutdown` one `refresh` whose error is
-    returned wrapped.
+  * `Handle`: deferred `RecoverAndLog` (a panic leaves `status` at its zero value); loop: receive
+    from the signal channel, `panic` when it is closed (unreachable while it is open);
+    `IsShutdownSignal`: if false back to the receive; if true `WithTimeout`, deferred `cancel`,
+    then `shutdown`: a loop over `h.services` from the LAST element to the first; every
+    iteration runs `shutdownService` = a frame with a deferred closure that calls `recover()`
+    directly, then `Shutdown`; after EVERY iteration, whatever `Shutdown` returned, back to the
+    loop head — no `break`, no early `return` (the status aggregation is not an event: it is
+    compared by the trace tie); `ret` when the slice is exhausted.
+  * `Start`: `go` of: deferred `RecoverAndLogDefault`; loop head: `Now`, `UntilNext`, `After`,
+    then a `select` between `w.done` (return) and the timer; the timer case first re-checks
+    `w.done` (`select` with `default`; return when closed), then `refresh` = frame [`New`,
+    deferred `cancel`, `Refresh`], `Handle` iff the error is not nil, back to the loop head.
+    (`Now`, `UntilNext` before the loop and at the end of an iteration are one state.)
+  * `Shutdown`: `close(w.done)` first; iff `w.refrOnShutdown` one `refresh`; return.
+  * `IsShutdownSignal`: true exactly for SIGINT, SIGQUIT, SIGTERM.
 -/
 import GolibsVerif.Go.Skel
 
 namespace GolibsVerif.C18.Expected
 open GolibsVerif.Skel
 
-/-- `service.(SignalHandler).Handle` (service/signal.go) -/
-def service_SignalHandler_Handle : Skeleton := [
-  .fn "SignalHandler" "Handle",
-  .deferCall "RecoverAndLog",
-  .loop "range" "h.signal",
-  .call "IsShutdownSignal",
-  .ifBegin "osutil.IsShutdownSignal(sig)",
-  .call "WithTimeout",
-  .deferCall "cancel",
-  .call "shutdown",
-  .ret "h.shutdown(ctx)",
-  .endIf,
-  .endLoop,
-  .panic
+/-- `service.(SignalHandler).Handle` (service/signal.go)
+```
+  deferCall "RecoverAndLog"
+  L1:
+  recv "recv.<chan os.Signal>"
+  cond "ok(<-recv.<chan os.Signal>)" false:
+      panic
+      L5:
+      end
+  cond "ok(<-recv.<chan os.Signal>)" true:
+      call "IsShutdownSignal"
+      cond "IsShutdownSignal()" false:
+          goto L1
+      cond "IsShutdownSignal()" true:
+          call "WithTimeout"
+          deferCall "WithTimeout().1"
+          L9:
+          cond "range backward recv.services" false:
+              ret ""
+              goto L5
+          cond "range backward recv.services" true:
+              frame
+              deferFunc
+              recover
+              endFunc
+              call "Shutdown"
+              endFunc
+              goto L9
+```
+-/
+def service_SignalHandler_Handle : Graph := [
+  /- 0 -/ [(.deferCall "RecoverAndLog", 1)],
+  /- 1 -/ [(.recv "recv.<chan os.Signal>", 2)],
+  /- 2 -/ [(.cond "ok(<-recv.<chan os.Signal>)" false, 3), (.cond "ok(<-recv.<chan os.Signal>)" true, 4)],
+  /- 3 -/ [(.panic, 5)],
+  /- 4 -/ [(.call "IsShutdownSignal", 6)],
+  /- 5 -/ [],
+  /- 6 -/ [(.cond "IsShutdownSignal()" false, 1), (.cond "IsShutdownSignal()" true, 7)],
+  /- 7 -/ [(.call "WithTimeout", 8)],
+  /- 8 -/ [(.deferCall "WithTimeout().1", 9)],
+  /- 9 -/ [(.cond "range backward recv.services" false, 10), (.cond "range backward recv.services" true, 11)],
+  /- 10 -/ [(.ret "", 5)],
+  /- 11 -/ [(.frame, 12)],
+  /- 12 -/ [(.deferFunc, 13)],
+  /- 13 -/ [(.recover, 14)],
+  /- 14 -/ [(.endFunc, 15)],
+  /- 15 -/ [(.call "Shutdown", 16)],
+  /- 16 -/ [(.endFunc, 9)]
 ]
 
-/-- `service.(SignalHandler).shutdown` (service/signal.go) -/
-def service_SignalHandler_shutdown : Skeleton := [
-  .fn "SignalHandler" "shutdown",
-  .assignResult "status" "osutil.ExitCodeSuccess",
-  .loop "for-cond" "i := len(h.services) - 1; i >= 0; i--",
-  .call "shutdownService",
-  .ifBegin "err == nil",
-  .cont,
-  .endIf,
-  .assignResult "status" "osutil.ExitCodeFailure",
-  .endLoop,
-  .ret "status"
+/-- `service.(RefreshWorker).Start` (service/refreshworker.go)
+```
+  goFunc
+  deferCall "RecoverAndLogDefault"
+  L2:
+  call "Now"
+  call "UntilNext"
+  call "After"
+  select
+  caseRecv "After()":
+      select
+      caseDefault:
+          frame
+          call "New"
+          deferCall "New().1"
+          call "Refresh"
+          endFunc
+          cond "Refresh() == nil" false:
+              call "Handle"
+              goto L2
+          cond "Refresh() == nil" true:
+              goto L2
+      caseRecv "recv.<chan unit>":
+          L8:
+          endFunc
+          ret ""
+          end
+  caseRecv "recv.<chan unit>":
+      goto L8
+```
+-/
+def service_RefreshWorker_Start : Graph := [
+  /- 0 -/ [(.goFunc, 1)],
+  /- 1 -/ [(.deferCall "RecoverAndLogDefault", 2)],
+  /- 2 -/ [(.call "Now", 3)],
+  /- 3 -/ [(.call "UntilNext", 4)],
+  /- 4 -/ [(.call "After", 5)],
+  /- 5 -/ [(.select, 6)],
+  /- 6 -/ [(.caseRecv "After()", 7), (.caseRecv "recv.<chan unit>", 8)],
+  /- 7 -/ [(.select, 9)],
+  /- 8 -/ [(.endFunc, 10)],
+  /- 9 -/ [(.caseDefault, 11), (.caseRecv "recv.<chan unit>", 8)],
+  /- 10 -/ [(.ret "", 12)],
+  /- 11 -/ [(.frame, 13)],
+  /- 12 -/ [],
+  /- 13 -/ [(.call "New", 14)],
+  /- 14 -/ [(.deferCall "New().1", 15)],
+  /- 15 -/ [(.call "Refresh", 16)],
+  /- 16 -/ [(.endFunc, 17)],
+  /- 17 -/ [(.cond "Refresh() == nil" false, 18), (.cond "Refresh() == nil" true, 2)],
+  /- 18 -/ [(.call "Handle", 2)]
 ]
 
-/-- `service.shutdownService` (service/signal.go) -/
-def service_shutdownService : Skeleton := [
-  .fn "" "shutdownService",
-  .deferFunc,
-  .recover,
-  .ifBegin "v != nil",
-  .call "FromRecovered",
-  .assignResult "err" "errors.FromRecovered(v)",
-  .endIf,
-  .endFunc,
-  .call "Shutdown",
-  .ret "s.Shutdown(ctx)"
+/-- `service.(RefreshWorker).Shutdown` (service/refreshworker.go)
+```
+  close "recv.<chan unit>"
+  cond "recv.refrOnShutdown" false:
+      L2:
+      ret ""
+      end
+  cond "recv.refrOnShutdown" true:
+      frame
+      call "New"
+      deferCall "New().1"
+      call "Refresh"
+      endFunc
+      goto L2
+```
+-/
+def service_RefreshWorker_Shutdown : Graph := [
+  /- 0 -/ [(.close "recv.<chan unit>", 1)],
+  /- 1 -/ [(.cond "recv.refrOnShutdown" false, 2), (.cond "recv.refrOnShutdown" true, 3)],
+  /- 2 -/ [(.ret "", 4)],
+  /- 3 -/ [(.frame, 5)],
+  /- 4 -/ [],
+  /- 5 -/ [(.call "New", 6)],
+  /- 6 -/ [(.deferCall "New().1", 7)],
+  /- 7 -/ [(.call "Refresh", 8)],
+  /- 8 -/ [(.endFunc, 2)]
 ]
 
-/-- `service.(RefreshWorker).Start` (service/refreshworker.go) -/
-def service_RefreshWorker_Start : Skeleton := [
-  .fn "RefreshWorker" "Start",
-  .goCall "refreshInALoop",
-  .ret "nil"
-]
-
-/-- `service.(RefreshWorker).refreshInALoop` (service/refreshworker.go) -/
-def service_RefreshWorker_refreshInALoop : Skeleton := [
-  .fn "RefreshWorker" "refreshInALoop",
-  .deferCall "RecoverAndLogDefault",
-  .call "Now",
-  .call "UntilNext",
-  .loop "for" "",
-  .call "After",
-  .select,
-  .caseRecv "w.done",
-  .ret "",
-  .caseRecv "w.clock.After(waitDur)",
-  .select,
-  .caseRecv "w.done",
-  .ret "",
-  .caseDefault,
-  .endSelect,
-  .call "refresh",
-  .ifBegin "err != nil",
-  .call "Handle",
-  .endIf,
-  .call "Now",
-  .call "UntilNext",
-  .endSelect,
-  .endLoop
-]
-
-/-- `service.(RefreshWorker).refresh` (service/refreshworker.go) -/
-def service_RefreshWorker_refresh : Skeleton := [
-  .fn "RefreshWorker" "refresh",
-  .call "New",
-  .deferCall "cancel",
-  .call "Refresh",
-  .ret "w.refr.Refresh(ctx)"
-]
-
-/-- `service.(RefreshWorker).Shutdown` (service/refreshworker.go) -/
-def service_RefreshWorker_Shutdown : Skeleton := [
-  .fn "RefreshWorker" "Shutdown",
-  .close "w.done",
-  .ifBegin "w.refrOnShutdown",
-  .call "refresh",
-  .assignResult "err" "w.refresh(ctx)",
-  .ifBegin "err != nil",
-  .ret "fmt.Errorf(\"refresh on shutdown: %w\", err)",
-  .endIf,
-  .endIf,
-  .ret "nil"
-]
-
-/-- `osutil.isShutdownSignal` (osutil/signal_unix.go) -/
-def osutil_isShutdownSignal : Skeleton := [
-  .fn "" "isShutdownSignal",
-  .switchBegin "sig",
-  .caseExprs ["unix.SIGINT", "unix.SIGQUIT", "unix.SIGTERM"],
-  .ret "true",
-  .caseExprs [],
-  .ret "false",
-  .endSwitch
+/-- `osutil.IsShutdownSignal` (osutil/signal.go)
+```
+  cond "p0 == unix.SIGINT || p0 == unix.SIGQUIT || p0 == unix.SIGTERM" false:
+      ret "false"
+      L3:
+      end
+  cond "p0 == unix.SIGINT || p0 == unix.SIGQUIT || p0 == unix.SIGTERM" true:
+      ret "true"
+      goto L3
+```
+-/
+def osutil_IsShutdownSignal : Graph := [
+  /- 0 -/ [(.cond "p0 == unix.SIGINT || p0 == unix.SIGQUIT || p0 == unix.SIGTERM" false, 1), (.cond "p0 == unix.SIGINT || p0 == unix.SIGQUIT || p0 == unix.SIGTERM" true, 2)],
+  /- 1 -/ [(.ret "false", 3)],
+  /- 2 -/ [(.ret "true", 3)],
+  /- 3 -/ []
 ]
 
 end GolibsVerif.C18.Expected
